@@ -6,7 +6,7 @@ import ast
 import re
 
 from ..cfg import cfg_of
-from ..core import named_args, seq, AnalysisError, call_name, const_value, unparse, walk_no_nested
+from ..core import inline_locals, named_args, seq, AnalysisError, call_name, const_value, unparse, walk_no_nested
 from ..packs import ord_pack
 from ..report import Ctx
 from .c04 import restore_rule
@@ -15,8 +15,34 @@ from .c04 import restore_rule
 #: obligations whose failure contradicts the property (rule, construct pattern, why); every other failure is 'not recognised'
 POSITIVE: list[tuple[str, str, str]] = [
     ('C07.R2', r':same-point$', 'reaching definitions: the point handed to RawResults is defined again after the main optimisation'),
-    ('C07.R1', r':one-function$', 'the three methods of the objective ask for differently scaled likelihoods'),
 ]
+
+
+def _flags(fn: ast.FunctionDef, call: ast.Call) -> tuple[dict[str, str], bool]:
+    """(parameter -> argument text, complete): the named arguments of a call, those given as `**d` included when d is (a local holding) a dictionary
+    written out with constant keys.  complete is False when some `**` or `*` argument could not be read: a parameter that is not in the dictionary may
+    then have been given all the same"""
+    out = named_args(call)
+    complete = not any(isinstance(a, ast.Starred) for a in call.args)
+    for k in call.keywords:
+        if k.arg is not None:
+            continue
+        d = inline_locals(fn, k.value)
+        if isinstance(d, ast.Call) and isinstance(d.func, ast.Name) and d.func.id == 'dict' and not d.args and all(x.arg for x in d.keywords):
+            for x in d.keywords:
+                out.setdefault(x.arg, unparse(x.value))
+        elif isinstance(d, ast.Dict) and all(isinstance(x, ast.Constant) and isinstance(x.value, str) for x in d.keys):
+            for x, v in zip(d.keys, d.values):
+                out.setdefault(x.value, unparse(v))
+        else:
+            complete = False
+    return out, complete
+
+
+def _unbounded(fn: ast.FunctionDef, e: ast.expr) -> bool:
+    """the expression (locals resolved) builds its pairs from the literal (None, None): no bound at all, whatever was declared"""
+    r = inline_locals(fn, e)
+    return any(isinstance(t, ast.Tuple) and len(t.elts) == 2 and all(isinstance(x, ast.Constant) and x.value is None for x in t.elts) for t in ast.walk(r))
 
 
 def run(ctx: Ctx) -> None:
@@ -36,18 +62,24 @@ def run(ctx: Ctx) -> None:
     f = NL.methods['_f']
     rets = [n for n in walk_no_nested(f.node) if isinstance(n, ast.Return)]
     ok = len(rets) == 1 and isinstance(rets[0].value, ast.UnaryOp) and isinstance(rets[0].value.op, ast.USub) and isinstance(rets[0].value.operand, ast.Call) and unparse(rets[0].value.operand.func) == 'self.like'
-    kw = named_args(rets[0].value.operand) if ok else {}
+    kw, whole = _flags(f.node, rets[0].value.operand) if ok else ({}, True)
     ok = ok and unparse(rets[0].value.operand.args[0]) == 'self.x' and kw.get('scaled') == 'False'
-    ctx.add('C07.R1', 'NegativeLikelihood._f', ok, f, '_f = -like(x, scaled=False)' if ok else f'_f returns {unparse(rets[0].value) if rets else "?"}', unparse(rets[0].value) if rets else '')
+    # the contradiction: what is returned (locals resolved) is the value of self.like itself, not its opposite
+    plain = [r for r in rets if r.value is not None and isinstance(inline_locals(f.node, r.value), ast.Call) and unparse(inline_locals(f.node, r.value).func) == 'self.like']
+    ctx.add('C07.R1', 'NegativeLikelihood._f', ok if (ok or plain) else None, f, '_f = -like(x, scaled=False)' if ok else
+            (f'_f returns {unparse(plain[0].value)}: the likelihood itself, not its opposite (the optimiser minimises)' if plain else f'_f returns {unparse(rets[0].value) if rets else "?"}'), unparse(rets[0].value) if rets else '', positive=bool(plain))
+    #: what each method asks for `scaled`; None: the rule could not read it (not given by name, or given through a `**` it cannot resolve)
     scaled_vals = {kw.get('scaled')}
     for name, want_h in (('_f_g', 'False'), ('_f_g_h', 'True')):
         g = NL.methods[name]
         calls = [c for c in walk_no_nested(g.node) if isinstance(c, ast.Call) and unparse(c.func) == 'self.like_derivatives']
         ctx.need(len(calls) == 1, f'{name} calls like_derivatives once')
-        kws = named_args(calls[0])
+        kws, whole = _flags(g.node, calls[0])
         scaled_vals.add(kws.get('scaled'))
-        ok = unparse(calls[0].args[0]) == 'self.x' and kws.get('hessian') == want_h
-        ctx.add('C07.R1', f'NegativeLikelihood.{name}:flags', ok, (g.file, calls[0].lineno), f'{name} asks hessian={kws.get("hessian")}' + ('' if ok else f' (expected {want_h})'), str(sorted(kws.items())))
+        ok = bool(calls[0].args) and unparse(calls[0].args[0]) == 'self.x' and kws.get('hessian') == want_h
+        # the opposite constant is a contradiction; a flag the rule cannot read is not
+        opposite = kws.get('hessian') in ('True', 'False') and kws.get('hessian') != want_h
+        ctx.add('C07.R1', f'NegativeLikelihood.{name}:flags', ok if (ok or opposite) else None, (g.file, calls[0].lineno), f'{name} asks hessian={kws.get("hessian")}' + ('' if ok else f' (expected {want_h})'), str(sorted(kws.items())), positive=opposite)
         out = [n for n in walk_no_nested(g.node) if isinstance(n, ast.Assign) and n.value is calls[0]] + [n for n in walk_no_nested(g.node) if isinstance(n, ast.AnnAssign) and n.value is calls[0]]
         ov = unparse(out[0].targets[0] if isinstance(out[0], ast.Assign) else out[0].target) if out else None
         fd = [c for c in walk_no_nested(g.node) if isinstance(c, ast.Call) and call_name(c) == 'FunctionData']
@@ -58,9 +90,16 @@ def run(ctx: Ctx) -> None:
                 okk = v == 'None'
             else:
                 okk = v == f'-{ov}.{k.arg}'
-            ctx.add('C07.R1', f'NegativeLikelihood.{name}.{k.arg}', okk, (g.file, fd[0].lineno), f'{k.arg} = {v}' + ('' if okk else f'; expected -{ov}.{k.arg}'), f'{k.arg}={v}')
+            # the contradiction: the same-named field of the likelihood output handed over as it is, not negated
+            same_sign = not okk and v == f'{ov}.{k.arg}' and not (k.arg == 'hessian' and name == '_f_g')
+            ctx.add('C07.R1', f'NegativeLikelihood.{name}.{k.arg}', okk if (okk or same_sign) else None, (g.file, fd[0].lineno), f'{k.arg} = {v}' + ('' if okk else f'; expected -{ov}.{k.arg}'), f'{k.arg}={v}', positive=same_sign)
     ok = scaled_vals == {'False'}
-    ctx.add('C07.R1', 'NegativeLikelihood:one-function', ok, NL, 'value, gradient and Hessian are those of the same unscaled likelihood' if ok else f'the three methods use scaled={sorted(map(str, scaled_vals))}', str(sorted(map(str, scaled_vals))))
+    # a method that asks for the scaled likelihood (scaled=True written out) while the property is about the unscaled one, or while another method
+    # asks for the unscaled one, is the contradiction; a value the rule cannot read (None, an expression) leaves the verdict open
+    differ = 'True' in scaled_vals
+    ctx.add('C07.R1', 'NegativeLikelihood:one-function', ok if (ok or differ) else None, NL, 'value, gradient and Hessian are those of the same unscaled likelihood' if ok else
+            (f'the three methods use scaled={sorted(map(str, scaled_vals))}' if differ else f'the value of `scaled` asked by the three methods is not in a form the rule can read ({sorted(map(str, scaled_vals))})'),
+            str(sorted(map(str, scaled_vals))), positive=differ)
     ctx.floor('C07.R1', 9)
 
     B = prog.cls('biogeme', 'BIOGEME')
@@ -80,13 +119,18 @@ def run(ctx: Ctx) -> None:
         # (the evaluation may be stored in a local or stand where its value is used)
         ev = [n for n in walk_no_nested(e.node) if isinstance(n, ast.Call) and unparse(n.func) in ('self.calculate_likelihood_and_derivatives', 'self.calculate_likelihood') and seq(n) > seq(unp[0])]
         bound = prog.bind_call(e, ev[0]) if len(ev) == 1 else None
-        kws = {k: unparse(v) for k, v in (bound or {}).items()}
+        # (a point or a flag kept in a local is that point, that flag)
+        kws = {k: unparse(inline_locals(e.node, v)) for k, v in (bound or {}).items()}
         ok = bound is not None and kws.get('x') == xstar and kws.get('scaled') == 'False'
+        # the contradictions: the scaled likelihood is asked for (True written out), or the point is an expression in which the result of the optimisation does not appear
+        result_names = {xstar} | ({unparse(main[0].targets[0])} if not isinstance(main[0].targets[0], ast.Tuple) else set())
+        elsewhere = bound is not None and 'x' in bound and not ({n_.id for n_ in ast.walk(inline_locals(e.node, bound['x'])) if isinstance(n_, ast.Name)} & result_names)
+        contradicted = kws.get('scaled') == 'True' or elsewhere
         if len(ev) != 1 or bound is None:
             ctx.add('C07.R2', f'BIOGEME.{mname}:final-evaluation', None, e, f'{mname}: the evaluation of the likelihood at the result of the optimisation is not in the expected form ({len(ev)} evaluations after the optimisation)', 'missing')
         else:
-            ctx.add('C07.R2', f'BIOGEME.{mname}:final-evaluation', ok, (e.file, ev[0].lineno), f'the final likelihood is evaluated at {xstar}, unscaled' if ok else
-                    f'final evaluation: {unparse(ev[0])[:120]}; the reported value must be the unscaled likelihood at {xstar}', unparse(ev[0]), positive=True)
+            ctx.add('C07.R2', f'BIOGEME.{mname}:final-evaluation', ok if (ok or contradicted) else None, (e.file, ev[0].lineno), f'the final likelihood is evaluated at {xstar}, unscaled' if ok else
+                    f'final evaluation: {unparse(ev[0])[:120]}; the reported value must be the unscaled likelihood at {xstar}', unparse(ev[0]), positive=contradicted)
         rr = [c for c in walk_no_nested(e.node) if isinstance(c, ast.Call) and unparse(c.func).endswith('RawResults')]
         okr = len(rr) == 1 and len(rr[0].args) >= 3 and unparse(rr[0].args[0]) == 'self' and unparse(rr[0].args[1]) == xstar
         ctx.add('C07.R2', f'BIOGEME.{mname}:results-point', okr, (e.file, rr[0].lineno if rr else e.line), f'RawResults receives {xstar}' if okr else f'RawResults receives {unparse(rr[0].args[1]) if rr and len(rr[0].args) > 1 else "?"}', unparse(rr[0]) if rr else '')
@@ -129,7 +173,9 @@ def run(ctx: Ctx) -> None:
     kws = named_args(calls[0])
     nlv = [unparse(n.targets[0]) for n in walk_no_nested(o.node) if isinstance(n, ast.Assign) and isinstance(n.value, ast.Call) and call_name(n.value) == 'NegativeLikelihood']
     ok = kws.get('bounds') == 'self.id_manager.bounds' and kws.get('init_betas') == 'starting_values' and nlv == [kws.get('fct')]
-    ctx.add('C07.R3', 'BIOGEME.optimize:bounds', ok, (o.file, calls[0].lineno), 'the algorithm receives id_manager.bounds and the starting values' if ok else f'algorithm called with {kws}', str(sorted(kws.items())))
+    free = [k_ for k_ in calls[0].keywords if k_.arg == 'bounds' and _unbounded(o.node, k_.value)]
+    ctx.add('C07.R3', 'BIOGEME.optimize:bounds', ok if (ok or free) else None, (o.file, calls[0].lineno), 'the algorithm receives id_manager.bounds and the starting values' if ok else
+            (f'the algorithm receives bounds={unparse(free[0].value)}: every parameter is handed over as unbounded, the declared bounds are not enforced' if free else f'algorithm called with {kws}'), str(sorted(kws.items())), positive=bool(free))
     nl = [c for c in walk_no_nested(o.node) if isinstance(c, ast.Call) and call_name(c) == 'NegativeLikelihood']
     kk = named_args(nl[0]) if nl else {}
     ok = kk.get('like') == 'self.calculate_likelihood' and kk.get('like_derivatives') == 'self.calculate_likelihood_and_derivatives' and kk.get('dimension') == 'self.id_manager.number_of_free_betas'
@@ -149,7 +195,11 @@ def run(ctx: Ctx) -> None:
         g = r[1]
         # follows delegation to a sibling wrapper
         fw = [c for c in walk_no_nested(g.node) if isinstance(c, ast.Call)]
-        uses = [c for c in fw if any(unparse(a) in ('bounds', 'Bounds(bounds)') for a in c.args) or any(unparse(kx.value) in ('bounds', 'Bounds(bounds)') for kx in c.keywords)]
+        # (the bounds may reach the backend through a local: `the_bounds = Bounds(bounds)`)
+        def _is_bounds(a_):
+            return unparse(inline_locals(g.node, a_)) in ('bounds', 'Bounds(bounds)')
+
+        uses = [c for c in fw if any(_is_bounds(a) for a in c.args if not isinstance(a, ast.Starred)) or any(_is_bounds(kx.value) for kx in c.keywords if kx.arg)]
         warn = [n for n in walk_no_nested(g.node) if isinstance(n, ast.For) and unparse(n.iter) == 'bounds' and 'will be ignored' in unparse(n)]
         ok = bool(uses) != bool(warn) or bool(uses)
         ctx.add('C07.R3', f'optimization.{g.name}:bounds', ok and (bool(uses) or bool(warn)), g,
@@ -158,11 +208,16 @@ def run(ctx: Ctx) -> None:
         if dropped and uses:
             ctx.add('C07.R3', f'optimization.{g.name}:bounds-dropped', False, (g.file, dropped[0].lineno), f'{g.name} sets its parameter `bounds` to None (under a condition) before handing it to the backend: '
                     'declared bounds are then not enforced and estimates outside them are returned by an algorithm that supports bounds', 'dropped', positive=True)
+        free = [kx for c in fw for kx in c.keywords if kx.arg == 'bounds' and _unbounded(g.node, kx.value)]
+        if free:
+            ctx.add('C07.R3', f'optimization.{g.name}:bounds-dropped', False, (g.file, free[0].value.lineno), f'{g.name} hands bounds={unparse(free[0].value)[:80]} to its backend: every parameter is unbounded there, '
+                    'the declared bounds are not enforced', 'unbounded', positive=True)
         if 'bounds' in str(name):
             # the name under which users select it promises bound support
             ctx.add('C07.R3', f'optimization.algorithms[{name}]:advertised', bool(uses), (om.path, k.lineno),
                     f'{name} is served by {g.name}, which forwards the bounds' if uses else
-                    f'the algorithm selected as {name!r} is {g.name}, which does not hand the bounds to its backend (it ignores them): estimates outside the declared bounds are returned under a name that promises bound support', g.name, positive=True)
+                    f'the algorithm selected as {name!r} is {g.name}, which does not hand the bounds to its backend (it ignores them): estimates outside the declared bounds are returned under a name that promises bound support', g.name,
+                    positive=bool(warn))  # the wrapper says itself that it ignores them; bounds that go another way than the rule follows leave the verdict open
     ctx.floor('C07.R3', 12)
 
     # R4
